@@ -423,7 +423,7 @@ ComponentPtr Component::clone() const
     c->setMath(math());
 
     if (isImport()) {
-        c->setImportSource(importSource());
+        c->setImportSource(importSource()->clone());
     }
 
     c->setImportReference(importReference());
@@ -453,6 +453,9 @@ ComponentPtr Component::clone() const
         auto cChild = component(index);
         c->addComponent(cChild->clone());
     }
+
+    ImportSourceMap importSourceMap;
+    shareClonedImportSources(shared_from_this(), c, importSourceMap);
 
     return c;
 }
